@@ -237,7 +237,7 @@ func run(r *core.Run) {
 	r.Rule("V: every value of the families below is built with the public lisp constructors, bound to a global of a real stdlib runtime and sent through " +
 		"json:dump-string (twice), dump-bytes, dump-message/message-bytes (each also with :string-numbers, and under the json:use-string-numbers default) and back through " +
 		"load-string {default, :exact-integers, :string-numbers}, load-bytes, load-message and equal?. " +
-		"D: every token sequence of length <= L over the 31-token document alphabet (concatenated without separators) and every byte string of length <= 2, " +
+		"D: every token sequence of length <= L over the 32-token document alphabet (concatenated without separators), every byte string of length <= 2, every string literal whose raw body is any single byte / any pair over a 48-byte class alphabet (all 256 bytes in thorough) / any triple over a 12-byte alphabet placed at 8 grammar positions (whole document, padded, array element, member name, member value), and every byte 0..255 inserted at and substituted for every offset of 26 template documents (each scalar kind as the whole document, padded, nested), " +
 		"through load-string, load-bytes, load-message x the four (:string-numbers, :exact-integers) keyword combinations (sequences of 5 tokens, thorough only: load-string x 4 modes, load-bytes :exact-integers, load-message default), plus load-string under the four json:use-* default combinations for the shorter sequences. " +
 		"H: every dump history of the shapes {bad,fix,good | bad,bad,fix,good | good,poison,bad,fix,good | bad,fix,good-rewrapped | bad,other-good,fix,good} over towers of maps / vectors / lists-in-maps of the stated depths (around the encoder's 64-level second pass), " +
 		"failing leaf in {NaN,+Inf,-Inf,lambda,self-reference,reference to the root} set and repaired IN PLACE with assoc!/dissoc!, through dump-string / dump-bytes / dump-message with and without :string-numbers (failing and final dump through the same form, plus every pair of different forms at depth 80); non-trivial history = the tower reaches the second pass. " +
@@ -408,6 +408,23 @@ func run(r *core.Run) {
 		}
 		i -= 257
 		return []byte{byte(i >> 8), byte(i)}, nil
+	}, 0, 0)
+	bodies := stringBodies(th)
+	r.Bound("doc_string_bodies", len(bodies))
+	r.Bound("doc_string_shapes", len(stringShapes))
+	x.runDocs("string-literal-bodies-x-positions", int64(len(bodies)*len(stringShapes)), func(i int64, _ []int) ([]byte, []string) {
+		sh := stringShapes[i%int64(len(stringShapes))]
+		var doc []byte
+		doc = append(doc, sh.pre...)
+		doc = append(doc, '"')
+		doc = append(doc, bodies[i/int64(len(stringShapes))]...)
+		doc = append(doc, '"')
+		return append(doc, sh.post...), nil
+	}, 0, 0)
+	edits := byteEdits()
+	r.Bound("doc_byte_templates", len(byteTemplates))
+	x.runDocs("every-byte-at-every-offset-of-templates", int64(len(edits))*256, func(i int64, _ []int) ([]byte, []string) {
+		return edits[i/256].apply(byte(i % 256)), nil
 	}, 0, 0)
 	ds := newSeqSpace(len(docTokens), L)
 	x.runDocs("token-sequences", ds.total, func(i int64, buf []int) ([]byte, []string) {
